@@ -761,6 +761,9 @@ class Interp:
     def iterate_concrete(self, v, expect=None):
         c = self.try_concrete_iter(v)
         if c is None:
+            if isinstance(v, SV) and isinstance(v.ty, TTuple):
+                items = z3.Select(self.ctx.field_array("$item"), self.ctx.ref_id(v))
+                return [self.ctx.typed(z3.Select(items, z3.IntVal(k)), ety) for k, ety in enumerate(v.ty.elems)]
             if isinstance(v, SV) and isinstance(v.ty, TSeq) and expect is not None:
                 # unpacking a heap tuple of declared arity
                 ln = z3.Select(self.ctx.field_array("$len"), self.ctx.ref_id(v))
